@@ -695,6 +695,7 @@ func TestVerif_C35_Loop(t *testing.T) {
 		var script []string
 		prevRecv := []int{}
 		hasStale := false
+		reported := map[string]bool{}
 		for i, st := range steps {
 			act := st.Get("act")
 			a := act.Get("a").Str()
@@ -726,20 +727,24 @@ func TestVerif_C35_Loop(t *testing.T) {
 			er := st.Get("result")
 			exp := c35lObs{Att: st.Get("att").Int(), Recv: expRecv, Conf: c35ConfOf(st.Get("conf")),
 				Res: c35lRes{O: er.Get("o").Str(), Sig: er.Get("sig").Str(), End: er.Get("end").Int(), TimeoutBlock: er.Get("timeoutBlock").Int()}}
+			// one report per field and behaviour; after a divergence the replay
+			// goes on to show its consequences (a stale receiver -> a stale
+			// confirmation counted -> a wrong report)
 			field := ""
 			switch {
 			case d.note != "":
 				field = "flow"
-			case obs.Res != exp.Res:
+			case obs.Res != exp.Res && !reported["result"]:
 				field = "result"
-			case fmt.Sprint(obs.Recv) != fmt.Sprint(exp.Recv):
+			case fmt.Sprint(obs.Recv) != fmt.Sprint(exp.Recv) && !reported["receivers"]:
 				field = "receivers"
-			case !c35SameConf(obs.Conf, exp.Conf):
+			case !c35SameConf(obs.Conf, exp.Conf) && !reported["doneSigners"]:
 				field = "doneSigners"
-			case obs.Att != exp.Att:
+			case obs.Att != exp.Att && !reported["attempt"]:
 				field = "attempt"
 			}
 			if field != "" {
+				reported[field] = true
 				kind := a
 				if st.Get("stale").Bool() {
 					kind = "StaleDeliver"
@@ -757,10 +762,15 @@ func TestVerif_C35_Loop(t *testing.T) {
 				}
 				mu.Lock()
 				divs = append(divs, div{len(steps), "loop:" + kind + ":" + field, what,
-					map[string]interface{}{"script": script, "step": i + 1}, exp, obs})
+					map[string]interface{}{"script": append([]string{}, script...), "step": i + 1}, exp, obs})
 				mu.Unlock()
-				return
+				if field == "flow" || field == "result" || field == "attempt" {
+					return
+				}
 			}
+		}
+		if len(reported) > 0 {
+			return
 		}
 		mu.Lock()
 		if hasStale {
